@@ -484,7 +484,15 @@ def _v_list_uncover_forward(tree):
     _list_idiom(tree, "others")
 
 
+def _v_shared_trivial_result(tree):
+    g = M.find_func(tree, "solve_exact_cover")
+    tree.body.insert(tree.body.index(M.find_func(tree, "_build_links")), M.stmts("_EMPTY_COVERS = Result([()], 1, 0, 0)")[0])
+    if not M.replace_expr(g, lambda e: isinstance(e, ast.Call) and M.src_is(e, "Result([()], 1, 0, 0)"), M.expr("_EMPTY_COVERS")):
+        raise M.Skip("trivial find_all answer not found")
+
+
 VARIANTS = [
+    M.Variant("the trivial find_all answer is one module-level Result shared by all calls (seed C07-N)", DLX, _v_shared_trivial_result, "C07-G3"),
     M.Variant("row columns collected in a list, covered and uncovered in the same order (seed C07-K)", DLX, _v_list_uncover_forward, "C07-O2"),
     M.Variant("uncover walks in cover's direction", DLX, _v_uncover_same_direction, "C07-O1"),
     M.Variant("uncover does not restore the column size", DLX, _v_uncover_no_size, "C07-O1"),
